@@ -400,18 +400,26 @@ def orm_readback(ctx, case, b, committed, hist, wit):
         last_k = int(round(committed[-1]["time"] / net["step"]))
         caps = [f for f in hist["fsteps"] if "capture_error" not in f]
         ctx.count("filter_step_capture_errors", len(hist["fsteps"]) - len(caps))
+        # completeness is asserted for targets still tracked at the end: steps a target recorded between two output epochs are
+        # held by its estimate agent, so a target removed before the next output takes them along - the property does not
+        # promise those rows (their content, when stored, is still compared)
+        alive = set(hist["alive_targets_final"])
         want = {}
         for f in caps:
             if f["k"] <= last_k:
                 want.setdefault((f["jd"], f["tid"]), []).append(f)
+        removed_keys = {k_ for k_ in want if k_[1] not in alive}
+        ctx.count("filter_steps_of_removed_targets_not_required", sum(len(want[k_]) for k_ in removed_keys))
         rows = db.getData(Query(ParticleFilterStep if case.get("gpf") else SequentialFilterStep))
         got = {}
         for r in sorted(rows, key=lambda r_: r_.id):
             got.setdefault((float(r.julian_date), int(r.target_id)), []).append(r)
         ctx.count("filter_steps_recorded", sum(len(v) for v in want.values()))
-        ctx.check(sorted(want) == sorted(got) and all(len(want[k_]) == len(got[k_]) for k_ in want), "filterstep-rows-ne-recorded",
+        want_req = {k_: v for k_, v in want.items() if k_ not in removed_keys}
+        got_req = {k_: v for k_, v in got.items() if k_[1] in alive}
+        ctx.check(sorted(want_req) == sorted(got_req) and all(len(want_req[k_]) == len(got_req[k_]) for k_ in want_req), "filterstep-rows-ne-recorded",
                   f"the estimate agents recorded {sum(len(v) for v in want.values())} filter step(s) up to the last output epoch, the database holds {sum(len(v) for v in got.values())} "
-                  f"(missing {len(set(want) - set(got))}, unexpected {len(set(got) - set(want))}; physics {net['step']}s, output {case['out']}s)", wit, mon="cardinality")
+                  f"(missing {len(set(want_req) - set(got_req))}, unexpected {len(set(got_req) - set(want_req))}; physics {net['step']}s, output {case['out']}s)", wit, mon="cardinality")
         # a particle filter records a step when it predicts and again when it updates: rows of one (epoch, target) are paired in recording order
         for key in want:
             if len(want[key]) != len(got.get(key, [])):
